@@ -6,7 +6,7 @@ REQUIRED = ["CifModel.C04_inv_init", "CifModel.C04_inv_sql", "CifModel.C04_inv_s
             "CifModel.remove_last_item_removes_loop", "CifModel.scalar_category_cannot_be_given",
             "CifModel.scalar_category_cannot_be_taken", "CifModel.destroy_removes_subtree_only", "CifModel.cifs_independent", "CifModel.names_returned_as_created_frame",
             "CifModel.names_returned_as_created_items", "CifModel.set_value_new_item_goes_to_scalar", "CifModel.C04_refines_get_block",
-            "CifModel.C04_refines_create_block", "CifModel.C04_refines_all_blocks", "CifModel.C04_refines_get_frame",
+            "CifModel.C04_refines_create_block", "CifModel.C04_refines_all_blocks", "CifModel.C04_refines_get_frame", "CifModel.C04_refines_create_loop", "CifModel.C04_refines_add_packet", "CifModel.C04_refines_get_value", "CifModel.C04_refines_set_value", "CifModel.C04_refines_remove_item", "CifModel.C04_refines_destroy_loop", "CifModel.C04_get_value_column", "CifModel.C04_add_packet_is_spec_packet",
             "CifModel.C04_cex_F30", "CifModel.C04_cex_F34_pinned",
             "CifModel.Store.schema_tables_link", "CifModel.Store.schema_triggers_link", "CifModel.Store.schema_sql_link",
             "CifModel.Store.schema_messages_link", "CifModel.Store.C05_paths_link"]
@@ -28,10 +28,12 @@ ASSUMPTIONS = [
     "the store's enumeration orders are not fixed by any property: observations are canonical (sorted) dumps",
 ]
 PARTIAL = [
-    "C04_refines is proved at the block/frame level only (get_block, create_block, get_all_blocks, get_frame commute with abs and agree in their "
-    "results); the loop level (create_loop, add_packet, set_value, remove_item, get_value) is stated for add_packet (C04_refines_full), not proved: it "
-    "needs two more invariants (loop numbers below next_loop_num, row numbers at most last_row_num) and is carried by the corollaries proved on the "
-    "model and by the dump-level oracle; it fails on the current tree for packets that omit items (open finding F30, C04_cex_F30)",
+    "C04_refines is proved op by op, not as one specStep over whole histories: get_block, create_block, get_all_blocks, get_frame commute with abs and "
+    "agree in their results; in container-local form (absLoops = the loop list abs shows for a container; every other loop of the CIF unchanged): "
+    "create_loop and add_packet on success (failure: C05_atomic; extra hypotheses LoopNumsBelow / RowsBelow, stated but not yet part of the proved "
+    "invariant), set_value of an existing item, loop_destroy / remove_item of the last item (no extra hypothesis), remove_item with items left and the "
+    "query get_value (under completeness of the packets, which F30 breaks: C04_cex_F30). Not proved: set_value of a NEW item (add_scalar composition), "
+    "add_item, prune, set_category, destroy of blocks/frames, create_frame; result-code agreement of the failing cases with the Spec functions",
     "set_value_all_packets_or_new_scalar: the new-scalar half is proved only as 'goes through add_scalar' (set_value_new_item_goes_to_scalar)",
 ]
 LEVEL_TEXT = ("Proof (partial where stated): an executable relational model of the SQLite-backed store (every function of cif.c/container.c/loop.c/"
